@@ -13,6 +13,24 @@ use serde_json::{json, Value};
 
 type Cl = Vec<(usize, bool)>;
 
+// sparse labels: a case may carry "labels": [l0, l1, ..]; variable i of the case (dense, used by the brute force) is then the
+// solver's variable l_i, so that formulas whose labels go beyond 64 stay enumerable over their few mentioned variables
+thread_local! { static LABELS: std::cell::RefCell<Vec<usize>> = std::cell::RefCell::new(vec![]); }
+thread_local! { static NV: std::cell::Cell<usize> = std::cell::Cell::new(0); }
+/// only variables the formula knows (label < num_vars) may be decided: anything else is a misuse of the solver, not a case
+fn decidable(v: usize) -> bool { lbl(v).value_usize() < NV.with(|n| n.get()) }
+fn lbl(v: usize) -> VarLabel { LABELS.with(|l| VarLabel::new(*l.borrow().get(v).unwrap_or(&v) as u64)) }
+fn dense(l: VarLabel) -> Result<usize, String> {
+    LABELS.with(|ls| {
+        let ls = ls.borrow();
+        if ls.is_empty() { return Ok(l.value_usize()); }
+        ls.iter().position(|x| *x == l.value_usize()).ok_or(format!("variable {} is reported as assigned but no clause mentions it", l.value_usize()))
+    })
+}
+fn unmentioned_set(s: &SATSolver, nv: usize) -> Option<usize> {
+    LABELS.with(|ls| { let ls = ls.borrow(); if ls.is_empty() { return None; } (0..nv).find(|x| !ls.contains(x) && s.is_set(VarLabel::new(*x as u64))) })
+}
+
 fn parse_cnf(c: &Value) -> Vec<Cl> {
     c["cnf"].as_array().map(|cs| cs.iter().map(|cl| cl.as_array().map(|ls| ls.iter().map(|l| {
         let x = l.as_i64().unwrap_or(1);
@@ -39,10 +57,11 @@ fn check_state(what: &str, s: &SATSolver, cls: &[Cl], norm: &[Cl], n: usize, m: 
                seen: &mut Vec<(u128, Vec<Cl>, Vec<Option<bool>>)>) -> CaseResult {
     // the reconstructed model and is_set agree
     for v in 0..n {
-        if s.is_set(VarLabel::new(v as u64)) != m[v].is_some() {
+        if s.is_set(lbl(v)) != m[v].is_some() {
             return Err(format!("{what}: is_set({v}) = {} but the literals reported through difference_iter give {:?}", !m[v].is_some(), m[v]));
         }
     }
+    if let Some(x) = unmentioned_set(s, 140) { return Err(format!("{what}: variable {x}, which no clause mentions, is reported as assigned")); }
     // sound: every assigned value is entailed by CNF + decisions
     let models: Vec<u32> = (0..(1u32 << n)).filter(|a| holds(cls, *a) && decisions.iter().all(|(v, p)| ((a >> v) & 1 == 1) == *p)).collect();
     for v in 0..n {
@@ -82,10 +101,10 @@ fn check_state(what: &str, s: &SATSolver, cls: &[Cl], norm: &[Cl], n: usize, m: 
 fn dfs(s: &mut SATSolver, cls: &[Cl], norm: &[Cl], n: usize, m: &mut Vec<Option<bool>>, decisions: &mut Vec<(usize, bool)>, from: usize,
        seen: &mut Vec<(u128, Vec<Cl>, Vec<Option<bool>>)>) -> CaseResult {
     for v in from..n {
-        if m[v].is_some() { continue; }
+        if m[v].is_some() || !decidable(v) { continue; }
         for p in [true, false] {
             let (m0, h0, sat0) = (m.clone(), s.cur_hash(), s.is_sat());
-            match s.decide(Literal::new(VarLabel::new(v as u64), p)) {
+            match s.decide(Literal::new(lbl(v), p)) {
                 DecisionResult::UNSAT => {
                     decisions.push((v, p));
                     let ext = (0..(1u32 << n)).any(|a| holds(cls, a) && decisions.iter().all(|(v, p)| ((a >> v) & 1 == 1) == *p));
@@ -93,7 +112,7 @@ fn dfs(s: &mut SATSolver, cls: &[Cl], norm: &[Cl], n: usize, m: &mut Vec<Option<
                     if ext { return Err(format!("walk: decide({v}={p}) after {decisions:?}: UNSAT reported but a model extends the decisions")); }
                 }
                 _ => {
-                    for l in s.difference_iter() { m[l.label().value_usize()] = Some(l.polarity()); }
+                    for l in s.difference_iter() { m[dense(l.label())?] = Some(l.polarity()); }
                     decisions.push((v, p));
                     check_state(&format!("walk after {decisions:?}"), s, cls, norm, n, m, decisions, seen)?;
                     dfs(s, cls, norm, n, m, decisions, v + 1, seen)?;
@@ -110,9 +129,14 @@ fn dfs(s: &mut SATSolver, cls: &[Cl], norm: &[Cl], n: usize, m: &mut Vec<Option<
 
 pub fn run(c: &Value) -> CaseResult {
     let cls = parse_cnf(c);
-    let lits: Vec<Vec<Literal>> = cls.iter().map(|cl| cl.iter().map(|(v, p)| Literal::new(VarLabel::new(*v as u64), *p)).collect()).collect();
+    let labels: Vec<usize> = c["labels"].as_array().map(|a| a.iter().map(|x| x.as_u64().unwrap_or(0) as usize).collect()).unwrap_or_default();
+    LABELS.with(|l| *l.borrow_mut() = labels.clone());
+    let lits: Vec<Vec<Literal>> = cls.iter().map(|cl| cl.iter().map(|(v, p)| Literal::new(lbl(*v), *p)).collect()).collect();
     let cnf = Cnf::new(&lits);
-    let n = cnf.num_vars();
+    let nv = cnf.num_vars();
+    NV.with(|x| x.set(nv));
+    let n = if labels.is_empty() { nv } else { labels.len() };
+    if n > 16 { return Err("case too large for the brute force".into()); }
     // the clauses the solver hashes: deduplicated, tautologies dropped
     let norm: Vec<Cl> = cls.iter().map(|cl| { let mut c = cl.clone(); c.sort(); c.dedup(); c })
         .filter(|cl| !cl.iter().any(|(v, p)| cl.contains(&(*v, !*p)))).collect();
@@ -126,7 +150,7 @@ pub fn run(c: &Value) -> CaseResult {
         Some(s) => s,
     };
     let mut m: Vec<Option<bool>> = vec![None; n];
-    for l in s.difference_iter() { m[l.label().value_usize()] = Some(l.polarity()); }
+    for l in s.difference_iter() { m[dense(l.label())?] = Some(l.polarity()); }
     let mut decisions: Vec<(usize, bool)> = vec![];
     let mut seen = vec![];
     check_state("after new", &s, &cls, &norm, n, &m, &decisions, &mut seen)?;
@@ -143,7 +167,7 @@ pub fn run(c: &Value) -> CaseResult {
                 s.pop();
                 decisions.pop();
                 for v in 0..n {
-                    if s.is_set(VarLabel::new(v as u64)) != m0[v].is_some() {
+                    if s.is_set(lbl(v)) != m0[v].is_some() {
                         return Err(format!("step {k} pop: is_set({v}) = {} but before the matching decide it was {}", !m0[v].is_some(), m0[v].is_some()));
                     }
                 }
@@ -155,9 +179,9 @@ pub fn run(c: &Value) -> CaseResult {
             continue;
         }
         let (v, p) = ((x.unsigned_abs() - 1) as usize, x > 0);
-        if v >= n { continue; }
+        if v >= n || !decidable(v) { continue; }
         let before = (m.clone(), s.cur_hash(), s.is_sat());
-        let r = s.decide(Literal::new(VarLabel::new(v as u64), p));
+        let r = s.decide(Literal::new(lbl(v), p));
         let mut dec2 = decisions.clone(); dec2.push((v, p));
         let ext = (0..(1u32 << n)).any(|a| holds(&cls, a) && dec2.iter().all(|(v, p)| ((a >> v) & 1 == 1) == *p));
         match r {
@@ -165,13 +189,13 @@ pub fn run(c: &Value) -> CaseResult {
                 if ext { return Err(format!("step {k} decide({x}): UNSAT reported but a model of the CNF extends the decisions {dec2:?}")); }
                 // nothing was pushed: the observable state is the one before the call
                 for u in 0..n {
-                    if s.is_set(VarLabel::new(u as u64)) != before.0[u].is_some() { return Err(format!("step {k} decide({x}) = UNSAT changed is_set({u})")); }
+                    if s.is_set(lbl(u)) != before.0[u].is_some() { return Err(format!("step {k} decide({x}) = UNSAT changed is_set({u})")); }
                 }
                 if s.cur_hash() != before.1 || s.is_sat() != before.2 { return Err(format!("step {k} decide({x}) = UNSAT changed the hash or the satisfied flag")); }
             }
             other => {
                 for l in s.difference_iter() {
-                    let u = l.label().value_usize();
+                    let u = dense(l.label())?;
                     if let Some(b) = m[u] { if b != l.polarity() { return Err(format!("step {k} decide({x}): variable {u} was {b} and is now reported {}", l.polarity())); } }
                     m[u] = Some(l.polarity());
                 }
@@ -252,6 +276,45 @@ pub fn candidates(seed: u64) -> Vec<Value> {
             let positive = nx3(2) == 0;
             let cnf: Vec<Vec<i64>> = (0..k).map(|_| (0..w).map(|_| { let v = 1 + nx3(n as u64) as i64; if positive || nx3(2) == 0 { v } else { -v } }).collect()).collect();
             out.push(json!({"case": "unitprop", "cnf": cnf, "walk": true}));
+        }
+    }
+    // size thresholds: labels beyond 64 (few mentioned variables, spread over 0..130) and more than 64 clauses
+    {
+        let mut s4 = seed.wrapping_add(55001);
+        let mut nx4 = |n: u64| { s4 = s4.wrapping_mul(6364136223846793005).wrapping_add(1442695040888963407); (s4 >> 33) % n };
+        for t in 0..60 {
+            let k = 4 + nx4(4) as usize;  // 4..7 mentioned variables
+            let mut labels: Vec<u64> = vec![];
+            while labels.len() < k { let l = if labels.len() < 2 { 60 + nx4(70) } else { nx4(130) }; if !labels.contains(&l) { labels.push(l); } }
+            labels.sort();
+            let ncl = 3 + nx4(5);
+            let cnf: Vec<Vec<i64>> = (0..ncl).map(|_| { let w = 2 + nx4(2); (0..w).map(|_| { let v = 1 + nx4(k as u64) as i64; if nx4(2) == 0 { v } else { -v } }).collect() }).collect();
+            if t % 2 == 0 {
+                out.push(json!({"case": "unitprop", "cnf": cnf, "labels": labels, "walk": true}));
+            } else {
+                let ops: Vec<i64> = (0..(4 + nx4(10))).map(|_| { if nx4(4) == 0 { 0 } else { let v = 1 + nx4(k as u64) as i64; if nx4(2) == 0 { v } else { -v } } }).collect();
+                out.push(json!({"case": "unitprop", "cnf": cnf, "labels": labels, "ops": ops}));
+            }
+        }
+        for _ in 0..20 {
+            // 66-90 clauses over 7-8 variables (the satisfied-clause set and the watch lists go beyond one machine word)
+            let n = 7 + nx4(2) as i64;
+            let ncl = 66 + nx4(25);
+            let cnf: Vec<Vec<i64>> = (0..ncl).map(|_| { let w = 3 + nx4(2); (0..w).map(|_| { let v = 1 + nx4(n as u64) as i64; if nx4(2) == 0 { v } else { -v } }).collect() }).collect();
+            let ops: Vec<i64> = (0..(6 + nx4(14))).map(|_| { if nx4(4) == 0 { 0 } else { let v = 1 + nx4(n as u64) as i64; if nx4(2) == 0 { v } else { -v } } }).collect();
+            out.push(json!({"case": "unitprop", "cnf": cnf, "ops": ops}));
+            // the same size with a planted model: every clause gets one literal true under it, and the history decides the
+            // planted literals (a pop now and then), so that the solver has to report SAT with more than 64 clauses
+            let planted: Vec<bool> = (0..n).map(|_| nx4(2) == 0).collect();
+            let cnf2: Vec<Vec<i64>> = cnf.iter().map(|cl| { let mut cl = cl.clone(); let v = nx4(n as u64) as usize; cl[0] = if planted[v] { v as i64 + 1 } else { -(v as i64 + 1) }; cl }).collect();
+            let mut ops2: Vec<i64> = vec![];
+            let mut vars: Vec<usize> = (0..n as usize).collect();
+            for i in (1..vars.len()).rev() { let j = nx4(i as u64 + 1) as usize; vars.swap(i, j); }
+            for (i, v) in vars.iter().enumerate() {
+                ops2.push(if planted[*v] { *v as i64 + 1 } else { -(*v as i64 + 1) });
+                if i == 2 { ops2.push(0); ops2.push(if planted[*v] { *v as i64 + 1 } else { -(*v as i64 + 1) }); }
+            }
+            out.push(json!({"case": "unitprop", "cnf": cnf2, "ops": ops2}));
         }
     }
     let mut s = seed.wrapping_add(4242);
